@@ -114,6 +114,14 @@ def run(ctx):
             spec['omen'] = {'ngram': 2, 'alphabet': L4, 'ip': [[0, x] for x in L4], 'ep': [[0, x] for x in L4],
                             'cp': [[0, x + y] for x in L4 for y in L4], 'ln': [10, 0, 1], 'keyspace': [[l, 1] for l in range(0, 19)]}
             spec['omen_prob'] = [['1', '0.5'], ['0', '0.3']]
+        if i == 6:
+            # whatever the seed: no initial n-gram at level 0 and four Markov levels run one after the other - the search then asks
+            # its memo table about negative remainders; the uninterrupted run has a warm table when it reaches level 4, a resumed
+            # process a cold one (resumed sessions below get a grammar object of their own), and both must emit the same strings
+            spec = C12.small_ruleset(rng, markov_pos=0)
+            spec['omen'] = {'ngram': 2, 'alphabet': ['a', 'b'], 'ip': [[1, 'a'], [1, 'b']], 'ep': [[1, 'a'], [1, 'b']],
+                            'cp': [[1, 'ab'], [1, 'aa'], [0, 'bb'], [1, 'ba']], 'ln': [0, 2, 0, 0], 'keyspace': [[l, 1] for l in range(0, 19)]}
+            spec['omen_prob'] = [['0', '0.4'], ['1', '0.25'], ['2', '0.2'], ['3', '0.1'], ['4', '0.05']]
         if i == 5:
             # whatever the seed: one Markov level (target 2) that holds two lengths, both at length level 2 - a session resumed inside the
             # first length has to step on to the second one
@@ -184,7 +192,8 @@ def run(ctx):
                         sched, events = 'm' * cut + 'kk' + 'm' * (len(full) + 2 * len(units) + 5), [('line', 'q', False)]
                     pos0, opt0, omn0, _ = ss.read_files(sf, units, pcfg)
                     try:
-                        rc = ss.run_session(pcfg, sf, load_cfg(sf), True, sched, events)
+                        # a resumed session is another process: its grammar object (and the memo table of the OMEN search) is new
+                        rc = ss.run_session(common.load_grammar(d), sf, load_cfg(sf), True, sched, events)
                     except Exception as e:
                         viol.append({'property': 'C15', 'kind': 'session-raised', 'error': repr(e)[:200], 'cycle': c, 'witness': wit})
                         ok = False
